@@ -50,7 +50,18 @@ def c19(tier):
         trusted=["analyzer verif hooks (VerifResetGlobal) and Analyzer.Run driven in-process with a hand-built analysis.Pass"])
 
 
-CHECKS = {"C06": c06, "C15": c15, "C16": c16, "C19": c19}
+def c14(tier):
+    vlib.standard(
+        "C14", tier, "c14", ["Properties_C14.v", "Proofs_Params.v"],
+        assume=[
+            "parameter values are compared in their printed form (%v)",
+            "ruleguard's string parameters are validated by its constructor and belong to C18; plumbing cases leave them at their defaults",
+            "gc sizes are modelled for amd64 (word size 8, max align 8)",
+        ],
+        trusted=["bridge op 'params' in both mains; analyzer flag set + VerifPrepare; go/types Sizes and a compiled unsafe.Sizeof program as references for sizes"])
+
+
+CHECKS = {"C06": c06, "C14": c14, "C15": c15, "C16": c16, "C19": c19}
 
 
 def run(prop, tier):
